@@ -191,16 +191,6 @@ Definition collection_level_reject (c : c18case) : bool :=
   end.
 
 (* ---- shapes of the confirmed defects *)
-Definition pq_unbuildable (p : vparams) : bool :=
-  match vp_quant p with
-  | Some q =>
-      seq (qz_type q) "product" &&
-      negb (seq (vp_metric p) "hamming" || seq (vp_metric p) "jaccard") &&
-      match qz_product q with
-      | Some pq => negb ((vp_size p) mod (pq_subvectors pq) =? 0) || seq (vp_metric p) "haversine"
-      | None => false end
-  | None => false
-  end.
 Definition schema_pq_unbuildable (s : ischema) : bool :=
   existsb (fun kv => (seq (iv_type (snd kv)) "vectorFlat" && match iv_flat (snd kv) with Some p => pq_unbuildable p | None => false end)
                   || (seq (iv_type (snd kv)) "vectorVamana" && match iv_vamana (snd kv) with Some p => pq_unbuildable p | None => false end)) s.
